@@ -77,7 +77,7 @@ func vfRunScen(c vfScenCase) *vfScenOut {
 	away := filepath.Join(dir, "out-away")
 	ws, we := vfWindowStrings(c.WindowKind)
 	conf := vfConf{DeviceName: "scen", Min: sc.Min, Max: sc.Max, Prev: sc.Prev, Cont: sc.Cont, MinDiskMB: 1, Throttle: c.Throttle, BucketS: c.BucketS, RefillS: c.RefillS,
-		WinStart: ws, WinEnd: we, Motion: vfSimpleMotion(sc.Trigger, sc.Edge), Lat: -43.5, Lon: 172.6}
+		WinStart: ws, WinEnd: we, Motion: sc.motionConf(), Lat: -43.5, Lon: 172.6}
 	if c.HugeDisk || c.HalfDisk || c.MidDisk {
 		var fs syscall.Statfs_t
 		if err := syscall.Statfs(dir, &fs); err != nil {
